@@ -161,7 +161,10 @@ class BodyMixin:
             b = self._get_body_string()
             if not b:
                 return None
-            return json_mod.loads(b)
+            try:
+                return json_mod.loads(b)
+            except ValueError:  # incl. JSONDecodeError, UnicodeDecodeError
+                self._raise(BodyParsingError('Invalid JSON'), RequestError)
         return None
 
     @cache_in('environ[ ombott.request.post ]', read_only=True)
@@ -180,7 +183,11 @@ class BodyMixin:
         ctype = self.content_type
         if not ctype.startswith('multipart/'):
             if ctype.startswith('application/json'):
-                post.update(self.json)
+                json = self.json
+                if json is not None:
+                    if not isinstance(json, dict):
+                        self._raise(BodyParsingError('JSON object expected'), RequestError)
+                    post.update(json)
             else:
                 parse_qsl(
                     touni(self._get_body_string(), 'latin1'),
@@ -198,9 +205,16 @@ class BodyMixin:
             # when reading body
             raise BodyParsingError()
         elif markup.error is not None:
-            raise markup.error
+            self._raise(markup.error, RequestError)
         listified = set()
-        for item in FieldStorage.iter_items(body, markup.markups, self.config.max_memfile_size):
+        items = FieldStorage.iter_items(body, markup.markups, self.config.max_memfile_size)
+        while True:
+            try:
+                item = next(items, None)
+            except RequestError as err:
+                self._raise(err, RequestError)
+            if item is None:
+                break
             if item.filename:
                 it = FileUpload(
                     item.file, item.name,
